@@ -227,6 +227,16 @@ def run(ctx):
         srcs.append("fn main() -> int {\n    let mut s: string = \"x\"\n    while (< (str_length s) %d) {\n        set s (+ s s)\n    }\n    let a: string = (+ \"#\" s)\n    let b: string = (+ s \"#\")\n"
                     "    let c: string = (str_concat a b)\n    (println (str_length a))\n    (println (str_length b))\n    (println (str_length c))\n    (println (str_substring c (- (str_length c) 3) 3))\n"
                     "    (println (str_contains b \"#\"))\n    (println (== a b))\n    return 0\n}\nshadow main { assert (== 1 1) }\n" % tgt)
+    # binary strings: every byte-level slice of texts with 1-, 2-, 3- and 4-byte characters, then the UTF-8 views of the slice
+    # (a cut inside a character makes the slice invalid; length and char_at must then refuse, not read past the buffer)
+    for text in (["price: \u00e9 \u20ac5", "\U0001f600a\u4e2d"] if quick else ["price: \u00e9 \u20ac5", "\U0001f600a\u4e2d", "\u00e9\u00e9", "a\u20ac", "\U0001f600", "ascii only", "\u4e2d\u6587\U0001f4a9!"]):
+        srcs.append("fn probe(text: bstring, start: int, len: int) -> int {\n    let head: bstring = (bstr_substring text start len)\n    let n: int = (bstr_utf8_length head)\n    let mut acc: int = (bstr_length head)\n    let mut i: int = 0\n"
+                    "    while (< i n) {\n        set acc (+ acc (bstr_utf8_char_at head i))\n        set i (+ i 1)\n    }\n    if (bstr_validate_utf8 head) {\n        set acc (+ acc 1000000)\n    } else {\n        set acc (+ acc (bstr_utf8_char_at head 0))\n    }\n"
+                    "    let both: bstring = (bstr_concat head head)\n    set acc (+ acc (bstr_length both))\n    if (> (bstr_length both) 0) {\n        set acc (+ acc (bstr_byte_at both (- (bstr_length both) 1)))\n    } else {\n        set acc acc\n    }\n"
+                    "    (bstr_free both)\n    (bstr_free head)\n    return acc\n}\nshadow probe { assert true }\n"
+                    "fn main() -> int {\n    let text: bstring = (bstr_new \"%s\")\n    if (bstr_validate_utf8 text) {\n        (println \"source validated\")\n    } else {\n        (println \"source not UTF-8\")\n    }\n    let total: int = (bstr_length text)\n    let mut start: int = 0\n    while (<= start total) {\n        let mut len: int = 0\n"
+                    "        while (<= (+ start len) total) {\n            (println (probe text start len))\n            set len (+ len 1)\n        }\n        set start (+ start 1)\n    }\n    (bstr_free text)\n    return 0\n}\nshadow main { assert true }\n" % text)
+        srcs.append(srcs[-1].replace("    if (bstr_validate_utf8 text) {\n        (println \"source validated\")\n    } else {\n        (println \"source not UTF-8\")\n    }\n", ""))
     # every arithmetic operator at the boundary pairs (operands arrive as function parameters, so the C compiler cannot fold them)
     from .. import lang
     bpairs = [(a, b) for a in lang.BOUNDARY for b in lang.BOUNDARY]
